@@ -5,7 +5,7 @@ from . import common as C
 TRUSTED = [
     "Lean 4.33 kernel; axioms: propext, Quot.sound at most (see coverage.axioms_used)",
     "hand-written Lean model LlirModel/Numbering.lean of Func.AssignIDs / Module.AssignGlobalIDs (one `setName` closure threaded over the slots in loop order) and of the "
-    "parser's textual numbering of unnamed globals; LLVMSpec.numbering = LLVM's value numbering (trusted transcription)",
+    "parser's textual numbering of unnamed globals; LLVMSpec.numbering / agreesFrom = LLVM's value numbering (trusted transcription; VALIDATED on every run against LLVM 14's own parser, `llvm-as -disable-verify`, see coverage.llvm_reference; one recorded divergence: nameless first parameter)",
     "a function is abstracted to the flat list of its value slots (named?, ID, value-producing?) in the order the Go loops visit them",
     "Go harness ops_numbering.go (same shapes through the constructors and through rendered text)",
 ]
